@@ -10,10 +10,18 @@ import tr_scales
 MANIFEST = {
     "text": "Theorems over unbounded Z and all strings about the model REGENERATED from scales.py on every run "
             "(total on 0..100, refusal outside, one-directional, label round trip, unknown labels refused, "
-            "= STIX 2.1 Appendix A tables); kernel-evaluated window check lifted to Z by a generic lemma.",
+            "= STIX 2.1 Appendix A tables); kernel-evaluated window check lifted to Z by a generic lemma. "
+            "Two table entries are disclosed in coq/Spec/ConfidenceSpec.v: WEP 'Unlikely/Probably Not' = 30 is SEEDED "
+            "from the code (its docstring says 20; both lie in the label's range 20-39, so the round trip holds either way) "
+            "and Admiralty '6 - Truth cannot be judged' has no value and is treated as an unknown label (refused). "
+            "Oracle-only on the real functions: every call is made twice, the small domain is asked again in descending "
+            "and shuffled order in one interpreter (answers must not depend on earlier calls), and non-string arguments "
+            "(None, numbers, bools, bytes, lists, objects that merely print like a label) must be refused by X_to_value.",
     "design_ref": "DESIGN.md 6/C20",
     "note": "Trusted: Coq kernel + vm_compute, tr_scales translator (validated by a full-domain sweep against the real "
-            "functions each run), the hand-written Appendix A tables in coq/Spec/ConfidenceSpec.v. No axioms.",
+            "functions each run), the hand-written Appendix A tables in coq/Spec/ConfidenceSpec.v. No axioms. "
+            "The theorems are about integers (value_to_X) and strings (X_to_value); floats/bools given to value_to_X are "
+            "outside the property's quantifier.",
     "technique": "Coq proof over a model translated from source + exhaustive sweep of the real functions",
 }
 
